@@ -78,7 +78,13 @@ func (s *backend) read(p []byte) (int, error) {
 	if len(r.b) == 0 {
 		var err error
 		if r.err {
-			err = errScript
+			// half of the failures are io.EOF, half another error: the loop must stop on both
+			// (which one is a function of the bytes delivered so far, so a case replays exactly)
+			if (s.delivered+n)%2 == 0 {
+				err = io.EOF
+			} else {
+				err = errScript
+			}
 		}
 		s.rs = s.rs[1:]
 		return n, err
